@@ -16,7 +16,7 @@ EXPLANATION = ("abstract interpretation of Subject::{register, deregister, resou
                "paths where is_confirmable is true; the retain closure returns count <= limit (limit = a copy of the "
                "configured field); the acknowledge path resets both fields of the found observer and writes nothing "
                "else; create_notification's result is checked field by field (version bits 01, type from the flag, "
-               "code 2.05, message id / token / payload = arguments, Observe set from the sequence argument)")
+               "code 2.05, message id / token / payload = arguments, Observe set from the sequence argument); no path through the code that advances the sequence returns without the store (every round advances it)")
 NOT_DECIDED = "Not decided: history semantics as a whole (which observers exist after a sequence of operations)."
 ASSUMPTIONS = ["requests handed to Subject come from an endpoint (request.source is Some), as CoapRequest::from_packet guarantees",
                "lemma 6: fewer than 2^32 notification rounds per resource (sequence += 1 in u32)",
